@@ -10,7 +10,8 @@ Regimes == {4, 6}
 \* after a rotating one)
 OriClasses == {"generic", "aligned", "mixed", "near1e-8", "near1e-12", "near1e-15", "near1e-17", "dead", "single"}
 VolClasses == {"uniform", "zeros", "dominant"}
-FlowClasses == {"ss_xz", "ss_yx", "ss_yz", "pure_xy", "pure_xz", "axi_c", "axi_e", "gen3d", "trace", "rot", "zero"}
+\* "pure_rot": diagonal strain rate plus vorticity - axis-aligned grains resolve no shear at all, yet the flow rotates
+FlowClasses == {"ss_xz", "ss_yx", "ss_yz", "pure_xy", "pure_xz", "axi_c", "axi_e", "gen3d", "trace", "rot", "zero", "pure_rot"}
 CONSTANT Sizes
 ScenInit == st \in {[kind |-> "scen", fab |-> f, regime |-> r, ori |-> o, vol |-> v, flow |-> fl, n |-> n] :
                       f \in Fabs, r \in Regimes, o \in OriClasses, v \in VolClasses, fl \in FlowClasses, n \in Sizes}
